@@ -76,7 +76,41 @@ type c13Parked struct {
 	inSave  bool
 }
 
+const c13LogPath = "shared/log"
+
+// c13CheckLog verifies that the shared append-only file consists of whole
+// records and that each worker's records appear in order without gaps: the
+// first min[w] records of worker w must be there, and no more than max[w].
+func c13CheckLog(data []byte, min, max []int) error {
+	if len(data)%5 != 0 {
+		return fmt.Errorf("length %d is not a multiple of the record size", len(data))
+	}
+	next := make([]int, len(max))
+	for i := 0; i < len(data); i += 5 {
+		rec := data[i : i+5]
+		w := int(rec[0] - 'A')
+		if w < 0 || w >= len(max) || rec[4] != '|' {
+			return fmt.Errorf("malformed record %q at offset %d", rec, i)
+		}
+		var k int
+		if _, err := fmt.Sscanf(string(rec[1:4]), "%03d", &k); err != nil {
+			return fmt.Errorf("malformed record %q at offset %d", rec, i)
+		}
+		if k != next[w]%1000 {
+			return fmt.Errorf("record %q at offset %d: worker %c's record #%d expected next (a record was lost, duplicated or reordered)", rec, i, rec[0], next[w])
+		}
+		next[w]++
+	}
+	for w := range max {
+		if next[w] < min[w] || next[w] > max[w] {
+			return fmt.Errorf("worker %c has %d records in the log, expected between %d and %d", 'A'+w, next[w], min[w], max[w])
+		}
+	}
+	return nil
+}
+
 type c13Run struct {
+	logCount    []int // records appended so far, per worker (each entry written by its worker only)
 	fs          CollectionFileSystem
 	store       *vfStore
 	clock       int64
@@ -295,9 +329,26 @@ func (r *c13Run) worker(w int, files []*c13File, ops []c13Op, dirs []string, wg 
 		f.data = newData
 		f.states = append(f.states, c13State{content: append([]byte(nil), newData...), from: t0})
 	}
+	// every worker also appends fixed-size records to one shared file through
+	// its own O_APPEND handle
+	logh, err := r.fs.OpenFile(c13LogPath, os.O_WRONLY|os.O_APPEND, 0644)
+	if err != nil {
+		r.failf("worker %d: open shared log: %v", w, err)
+		return
+	}
+	defer logh.Close()
 	for i, op := range ops {
 		f := files[op.file]
 		switch op.kind {
+		case "logappend":
+			rec := fmt.Sprintf("%c%03d|", 'A'+w, r.logCount[w]%1000)
+			n, err := logh.Write([]byte(rec))
+			if err != nil || n != len(rec) {
+				r.failf("worker %d op %d: append to shared log = %d, %v", w, i, n, err)
+				return
+			}
+			r.logCount[w]++
+			r.event("w%d logappend %s", w, rec)
 		case "open":
 			if f.h != nil {
 				f.h.Close()
@@ -561,7 +612,7 @@ func c13Case(t *rapid.T) {
 	dirs := []string{"", "shared", "shared2"}
 	allFiles := make([][]*c13File, nworkers)
 	allOps := make([][]c13Op, nworkers)
-	kinds := []string{"open", "write", "write", "write", "write", "truncate", "seek", "read", "read", "readall", "move", "remove", "overseg", "overseg", "poke", "poke"}
+	kinds := []string{"open", "write", "write", "write", "write", "truncate", "seek", "read", "read", "readall", "move", "remove", "overseg", "overseg", "poke", "poke", "logappend", "logappend"}
 	for w := 0; w < nworkers; w++ {
 		nf := rapid.IntRange(1, 3).Draw(t, "files")
 		for j := 0; j < nf; j++ {
@@ -620,6 +671,12 @@ func c13Case(t *rapid.T) {
 		if err := fs.Mkdir(d, 0755); err != nil {
 			t.Fatalf("VERIF-INFRA: mkdir %q: %v", d, err)
 		}
+	}
+	r.logCount = make([]int, nworkers)
+	if lf, err := fs.OpenFile(c13LogPath, os.O_CREATE|os.O_WRONLY, 0644); err != nil {
+		t.Fatalf("VERIF-INFRA: create shared log: %v", err)
+	} else {
+		lf.Close()
 	}
 	finished := make(chan struct{})
 	var saves []c13Save
@@ -710,8 +767,26 @@ func c13Case(t *rapid.T) {
 			}
 		}
 	}
+	if lp := found["log"]; len(lp) != 1 || lp[0] != "./"+c13LogPath {
+		t.Fatalf("shared log should be at %q, found at %v", "./"+c13LogPath, lp)
+	}
+	delete(found, "log")
 	if len(found) != nfiles {
 		t.Fatalf("final tree has %d distinct file names, models have %d: %v", len(found), nfiles, found)
+	}
+	{
+		h, err := fs.OpenFile(c13LogPath, os.O_RDONLY, 0)
+		if err != nil {
+			t.Fatalf("open shared log: %v", err)
+		}
+		data, err := vfReadAll(h, 7)
+		h.Close()
+		if err != nil {
+			t.Fatalf("read shared log: %v", err)
+		}
+		if err := c13CheckLog(data, r.logCount, r.logCount); err != nil {
+			t.Fatalf("shared append-only log (each worker appends through its own O_APPEND handle): %v\nlog %q\nevents:\n  %s", err, data, strings.Join(r.events, "\n  "))
+		}
 	}
 	// final save must succeed (no more injected failures) and reproduce the tree
 	finalTxt, err := fs.MarshalManifest(".")
@@ -742,6 +817,23 @@ func c13Case(t *rapid.T) {
 		if err := c13Walk(fs2, ".", snap); err != nil {
 			t.Fatalf("walking save #%d: %v", si, err)
 		}
+		if lp := snap["log"]; len(lp) == 1 {
+			h, err := fs2.OpenFile(lp[0], os.O_RDONLY, 0)
+			if err != nil {
+				t.Fatalf("save #%d: open shared log: %v", si, err)
+			}
+			data, err := vfReadAll(h, 5)
+			h.Close()
+			if err != nil {
+				t.Fatalf("save #%d: read shared log: %v", si, err)
+			}
+			if err := c13CheckLog(data, make([]int, nworkers), r.logCount); err != nil {
+				t.Fatalf("save #%d: shared log in the saved manifest: %v\nlog %q", si, err, data)
+			}
+		} else {
+			t.Fatalf("save #%d: shared log appears %d times in the saved manifest", si, len(lp))
+		}
+		delete(snap, "log")
 		for base, paths := range snap {
 			f := byBase[base]
 			if f == nil {
